@@ -136,6 +136,11 @@ def checkPlanX (c : Case) : CaseResult := Id.run do
   let implSegs := (c.get "oe").toList.filterMap (fun l =>
     match onN.find? (fun n => n.id == nat! l[0]!), onN.find? (fun n => n.id == nat! l[1]!) with
     | some u, some v => some (mkSeg u v) | _, _ => none)
+  -- overlap_removal_good: if the route segments satisfy `GoodA`, the overlap-free graph must satisfy `Good`
+  let goodA := goodAB (segsAOf inp)
+  if goodA then stats := ("planx.goodRouteSegs", 1) :: stats
+  if goodA && !goodB implSegs then
+    return { verdict := .specfail "planarise: the overlap-free graph is not axis-parallel / separated / overlap-free although the route segments are (overlap_removal_good)", stats := stats }
   if goodB implSegs then
     stats := ("planx.goodSegs", 1) :: stats
     let want := specCrossings implSegs
